@@ -85,7 +85,8 @@ def gen_flush(rnd, i):
         else:
             ops.append([rnd.choice(['Write', 'WriteT', 'WriteT']), rnd.choice([200000, 400000, 300000]) if big and rnd.random() < 0.7 else rnd.choice([1, 100, 5000])])
     peer = []
-    for _ in range(rnd.randint(0, 8)):
+    # the socket pair holds ~8 KiB: a 200-400 KB payload needs 25-50 peer reads to complete; sometimes the peer gives up early
+    for _ in range(rnd.choice([0, 3, 8, 30, 60, 120, 120])):
         peer.append(['drain', rnd.choice([65536, 200000, 400000, 1000000])])
     if rnd.random() < 0.3:
         peer.insert(rnd.randint(0, len(peer)), ['close'])
@@ -249,7 +250,20 @@ def stall_variants(scs, res, per_scenario=40, rnd=None, skip_actors=('poller', '
             if key not in seen:
                 seen.add(key)
                 pts.append(key)
-        rnd.shuffle(pts)
+        # a point passed many times (a poller loop, a retry loop) is represented by its first, its last and one random occurrence
+        byk = {}
+        for name, g in pts:
+            pt, occ = g.split('#')
+            byk.setdefault((name, pt), []).append(int(occ))
+        pts = []
+        for (name, pt), occs in byk.items():
+            pick = {occs[0], occs[-1], rnd.choice(occs)}
+            pts += [(name, '%s#%d' % (pt, o)) for o in sorted(pick)]
+        # weighted sample without replacement: hand-off points (triggers, locks, CAS words, detach) before plain length loads
+        W = {20: 6, 21: 6, 1: 5, 3: 4, 4: 4, 5: 5, 6: 3, 10: 3, 11: 4, 14: 5, 30: 3, 33: 4, 2: 2, 31: 1, 12: 2, 13: 2, 22: 3, 23: 3, 24: 3, 25: 3, 29: 3,
+             40: 3, 41: 3, 42: 3, 60: 5, 61: 5, 62: 6, 63: 4, 65: 4, 66: 4}
+        keyed = sorted(pts, key=lambda k: -(rnd.random() ** (1.0 / W.get(int(k[1].split('#')[0]), 1))))
+        pts = keyed
         for name, g in pts[:per_scenario]:
             pt, occ = g.split('#')
             v = dict(s)
